@@ -49,6 +49,12 @@ func (r *RouteRegistry) RegisterProxyRoute(route string, handler http.HandlerFun
 	r.registerWithMethod(route, wrappedHandler, description, method, true)
 }
 
+// RegisterSecuredRoute registers a route that goes through the full security chain like a proxy
+// route but does its own path handling: no route prefix is injected into the request context.
+func (r *RouteRegistry) RegisterSecuredRoute(route string, handler http.HandlerFunc, description, method string) {
+	r.registerWithMethod(route, handler, description, method, true)
+}
+
 func (r *RouteRegistry) registerWithMethod(route string, handler http.HandlerFunc, description, method string, isProxy bool) {
 	r.routes[route] = RouteInfo{
 		Handler:     handler,
